@@ -35,7 +35,8 @@ PROPS = {
              "fresh/mid/exhausted/none, number of accepted steps, number of exhausted steps); non-trivial = at least one accepted step and one op after it",
         theorem_clauses=["history refinement to the cursor machine over the one-shot waveform (all histories, all buffer sizes)",
                          "exhausted step returns 0 and leaves the buffer untouched", "generate_all returns the not-yet-produced suffix",
-                         "chunk concatenation = one-shot", "pinned-commit defect as a theorem about finish … false"],
+                         "chunk concatenation = one-shot", "pinned-commit defect as a theorem about finish … false",
+                         "LIBRARY LEVEL (C02Lib): every history of step / query / finish on the generator Engine::generator builds from the voice files is the cursor specification over the waveform synthesize returns"],
         test_clauses=["the real Vocoder yields exactly fperiod samples per frame and is deterministic (bitwise comparison with the one-shot waveform)"],
         assumptions=["abstract vocoder: one frame yields fperiod samples (checked on the real vocoder by the correspondence)"],
     ),
@@ -45,7 +46,8 @@ PROPS = {
              "speeds log-uniform in [0.1,50], exactly 1, fixed ladder, and speeds making F1/s a rounding tie; each case runs speed 1, s and s2. "
              "class = (branch taken at speed s: speed1/floor/exact/up/down, size bucket); non-trivial = speed != 1 and total differs from the speed-1 total",
         theorem_clauses=["speed 1: max(1, round(mean)) per state", "create never panics, greedy loop terminates within |target-sum| steps",
-                         "length and >=1 per state", "total = max(round(F1/s), n)", "total non-increasing in s", "pipeline level: at speed s synthesis returns frame_period x max(round(F1/s), #states) samples"],
+                         "length and >=1 per state", "total = max(round(F1/s), n)", "total non-increasing in s", "pipeline level: at speed s synthesis returns frame_period x max(round(F1/s), #states) samples",
+                         "LIBRARY LEVEL (C08Lib): for a well-formed voice set and a history ending in set_speed(s), synthesize returns frame_period x max(round(F1/max(s,1e-6)), labels x states) samples, every state >= 1 frame"],
         test_clauses=["f64 rounding of F1/s and of the rho-adjusted means (whole vectors compared exactly, pins the greedy choice)"],
         assumptions=["variances non-zero (the property's range)"],
     ),
@@ -56,7 +58,8 @@ PROPS = {
              "class = (#known ends, #unknown ends (capped 4), tail known/unknown); non-trivial = at least one known and one unknown end",
         theorem_clauses=["Labels::new gap filling = non-sequential spec", "no label vanishes: one duration >=1 per state (repaired tail)",
                          "cumulative law per known end; c + round(e-c) = round(e)", "group that cannot fit gets exactly one frame per state",
-                         "pinned-commit defect (trailing labels dropped) as a theorem"],
+                         "pinned-commit defect (trailing labels dropped) as a theorem",
+                         "LIBRARY LEVEL: with alignment on the library's durations are createWithAlignment of the interpolated duration model and the caller's times: no label vanishes, cumulative law per known end, frames up to a known end e = round(e) when the group fits"],
         test_clauses=["100 ns -> frame conversion in f64", "exact duration vectors"],
         assumptions=["times finite, known times >= 0 (the property's quantifier)"],
     ),
@@ -69,7 +72,8 @@ PROPS = {
              "updates; class = (setter, weight kind, result). non-trivial = at least one accepted and one rejected update (histories) / two or more voices (tuples)",
         theorem_clauses=["VoiceSet::new ok iff non-empty and all metadata equal; error kinds", "setter accepted iff |sum-1|<=eps and count = nvoices",
                          "sum checked before length", "accepted update stores exactly the weights, other vectors untouched",
-                         "rejected update is a no-op in any history", "lengths invariant through any history", "default = average, itself valid"],
+                         "rejected update is a no-op in any history", "lengths invariant through any history", "default = average, itself valid",
+                         "LIBRARY LEVEL: a rejected weight update anywhere in a history of updates leaves what synthesize returns unchanged; two weight histories ending in the same vectors synthesize alike"],
         test_clauses=["f64 summation and f64::EPSILON comparison", "synthesis after a rejected update uses the previous weights (bitwise waveform)"],
         assumptions=["metadata compared as canonical text of the fields VoiceSet::new compares"],
     ),
@@ -94,7 +98,8 @@ PROPS = {
                          "create's observation sequences carry zero precision where a span leaves the voiced frames (EdgeZero by construction)",
                          "positive definite => every LDL^T pivot positive", "banded LDL^T + substitutions solve A c = r for every length and band width",
                          "solve returns the solution of the dense normal equations", "normal equations with precisions >= 0 imply maximum likelihood",
-                         "END TO END: create returns a trajectory on every well-formed stream and each column maximises the log-likelihood over all sequences"],
+                         "END TO END: create returns a trajectory on every well-formed stream and each column maximises the log-likelihood over all sequences",
+                         "LIBRARY LEVEL: the trajectory Engine::generator hands to the vocoder for a stream without GV is the maximum-likelihood solution for Models::model_stream(j) and the library's durations"],
         test_clauses=["rounding accuracy in f64 (normal-equation residual built from the definition over absolute frames <= 1e-8 of scale)"],
         assumptions=["variances in the property's range (with_ivar's saturation branches are outside it)"],
     ),
@@ -149,7 +154,8 @@ PROPS = {
              "(b) engine-level: bundled and generated voices (2/3 streams, stage 0 / >=1), random in-envelope conditions, 1..3 labels, set_volume(v) vs 0 dB, v in [-60,60] "
              "incl. +-6.02, +-60, 20; get_volume read back; all other getters compared. class = (voice kind / stage, sign of v); non-trivial = v != 0",
         theorem_clauses=["one frame at gain g = frame at gain 1 scaled, vocoder state identical (any family)", "whole rendering scales by g (induction over frames)",
-                         "get_volume(set_volume v) = v given ln(exp x) = x", "decibels add (exp of a sum)", "set_volume changes no other setting", "pipeline level: Engine::synthesize at gain g = g x synthesize at gain 1; set_volume(v) = exp(v*DB) x the 0 dB waveform"],
+                         "get_volume(set_volume v) = v given ln(exp x) = x", "decibels add (exp of a sum)", "set_volume changes no other setting", "pipeline level: Engine::synthesize at gain g = g x synthesize at gain 1; set_volume(v) = exp(v*DB) x the 0 dB waveform",
+                         "LIBRARY LEVEL: appending set_volume(v) to any setter history multiplies every sample synthesize returns by exp(v ln10/20), for every voice set, weights and labels (needs: the speed test reads the speed only; counterexample otherwise)"],
         test_clauses=["10^(v/20) vs exp(v*DB) in f64 (1e-12 relative)"],
         assumptions=["exp/ln laws enter as explicit hypotheses on the Transc instance"],
     ),
@@ -177,7 +183,8 @@ PROPS = {
              "stays voiced); non-trivial = threshold splits the utterance",
         theorem_clauses=["frame voiced iff voicing weight of its state > threshold", "raising the threshold only removes voiced frames",
                          "unvoiced frames carry NODATA in every dimension", "NODATA -> period 0 (noise branch)", "stream i reads only its own threshold and GV weight",
-                         "non-MSD streams are all voiced"],
+                         "non-MSD streams are all voiced",
+                         "LIBRARY LEVEL: appending set_msd_threshold(i, x) / set_gv_weight(i, x) leaves durations and the trajectories of every other stream of Synth.params unchanged"],
         test_clauses=["which condition index reaches which stream inside Engine::generator (bitwise trajectory equality under changes to other streams)"],
         assumptions=[],
     ),
@@ -187,7 +194,8 @@ PROPS = {
              "every coefficient over eligible frames (GV switch on, voiced) vs weight x GV mean; silence-only utterances for the no-eligible case (compared bitwise "
              "with the ML solution from the stage API); low-pass stream under two GV weights. class = (voice kind, stream, eligibility class)",
         theorem_clauses=["target = gv_mean x gv_weight; switch expanded by durations and restricted to voiced frames", "no eligible frame -> plain ML solution",
-                         "a stream without GV ignores the GV weight", "conv_gv sets the variance over eligible frames exactly to the target, keeps their mean and the ineligible frames", "GV switch of a state is on iff its label matches no GV-off pattern"],
+                         "a stream without GV ignores the GV weight", "conv_gv sets the variance over eligible frames exactly to the target, keeps their mean and the ineligible frames", "GV switch of a state is on iff its label matches no GV-off pattern",
+                         "LIBRARY LEVEL: the GV switch the stages receive is 'label outside the GV-off contexts' per state; a stream whose voice has USE_GV = 0 is unaffected by set_gv_weight (trajectories and waveform)"],
         test_clauses=["variance within 20 % of the target when >= 100 frames are eligible", "variance monotone in the weight", "five Newton-like steps (model bit-identical)"],
         assumptions=["the 20 % and monotonicity clauses are empirical properties of a truncated iteration; not provable in exact arithmetic without a convergence analysis"],
     ),
@@ -195,7 +203,8 @@ PROPS = {
         rule="the bundled voice and PDF-perturbed copies (the property's quantifier) with random in-envelope conditions (GV on), 2..6 labels; h in [-24,24] incl. 0, +-12, +-24 and values up "
              "to +-80 that drive the clamp; two engine runs (h and 0) through the hook. class = (voice kind, zero/up/down/clamped); non-trivial = h != 0 with a voiced frame",
         theorem_clauses=["h = 0 is the identity", "static mean -> clamp(m + h*ln2/12), nothing else of the state changes", "voicing mask unchanged", "durations unchanged",
-                         "spectrum and low-pass streams unchanged", "trajectory level: shifting every static mean by h shifts the ML trajectory by exactly h (dynamic windows summing to 0)", "the shift law also holds through conv_gv and the five adaptive Newton-like GV steps (par_shift)", "END TO END (model): create after apply_additional_half_tone(h) = create + h*ln2/12 on every voiced frame, NODATA kept, while no state mean is clamped", "pipeline level: durations, spectrum, low-pass unchanged; log-F0 + h*ln2/12 on voiced frames"],
+                         "spectrum and low-pass streams unchanged", "trajectory level: shifting every static mean by h shifts the ML trajectory by exactly h (dynamic windows summing to 0)", "the shift law also holds through conv_gv and the five adaptive Newton-like GV steps (par_shift)", "END TO END (model): create after apply_additional_half_tone(h) = create + h*ln2/12 on every voiced frame, NODATA kept, while no state mean is clamped", "pipeline level: durations, spectrum, low-pass unchanged; log-F0 + h*ln2/12 on voiced frames",
+                         "LIBRARY LEVEL: appending set_additional_half_tone(h) leaves durations, spectrum and low-pass trajectories of Synth.params unchanged, for every h"],
         test_clauses=["log-F0 of every voiced frame moves by h*ln2/12 through MLPG and GV (1e-6) while no state is clamped"],
         assumptions=["shift-equivariance of the ML solution and of the GV iteration is tested, not proved"],
     ),
@@ -207,7 +216,8 @@ PROPS = {
              "str::parse::<f64> and Label::from_str. class = (corruption kinds, outcome)",
         theorem_clauses=["splitn(3,' ') yields 1..3 pieces (the expect is unreachable)", "loading is total into ok|error — no panic outcome exists",
                          "blank lines ignored anywhere", "error cases in the code's order", "strings without times = parsed labels with unknown times",
-                         "durations ignore time stamps when alignment is off"],
+                         "durations ignore time stamps when alignment is off",
+                         "LIBRARY LEVEL: load lines -> fill time gaps -> synthesize gives the same outcome with every blank line removed"],
         test_clauses=["jlabel's parser and f64 parsing themselves (parameters of the model)", "bitwise equality of waveforms across forms"],
         assumptions=["jlabel::Label::from_str and str::parse::<f64> are outside the model; their verdicts travel with each case"],
     ),
